@@ -186,6 +186,7 @@ class UndirectedWeightedGraph : private LabeledUndirectedGraph<EdgeWeight> {
     void removeVertexFromEdgeList(VertexIndex vertex) {
         assertVertexInRange(vertex);
 
+        const Successors formerNeighbours = adjacencyList[vertex];
         Successors::iterator j;
         for (VertexIndex i : *this) {
             j = adjacencyList[i].begin();
@@ -200,6 +201,8 @@ class UndirectedWeightedGraph : private LabeledUndirectedGraph<EdgeWeight> {
                     ++j;
                 }
         }
+        for (const VertexIndex &neighbour : formerNeighbours)
+            edgeLabels.erase(orderedEdge(vertex, neighbour));
     }
 
     /// @copydoc DirectedWeightedGraph::clearEdges
